@@ -37,6 +37,18 @@ type Program struct {
 	Inputs  []Kind
 	Instrs  []Instr
 	Exposed []int // registers asserted equal to a public output input
+	// Lits holds the value of literal constant inputs (Inputs[i] == Const, Lits[i] != nil):
+	// small compile-time constants written in the program itself (2, 3, -1 ...).
+	Lits []*big.Int
+}
+
+// FillLits overwrites the entries of in that are literal constants of the program (mod p).
+func (p *Program) FillLits(in []*big.Int, mod *big.Int) {
+	for i := range p.Lits {
+		if p.Lits[i] != nil && i < len(in) {
+			in[i] = new(big.Int).Mod(p.Lits[i], mod)
+		}
+	}
 }
 
 func (p *Program) String() string {
@@ -47,6 +59,9 @@ func (p *Program) String() string {
 			sb.WriteByte(',')
 		}
 		fmt.Fprintf(&sb, "r%d:%s", i, k)
+		if i < len(p.Lits) && p.Lits[i] != nil {
+			fmt.Fprintf(&sb, "=%v", p.Lits[i])
+		}
 	}
 	sb.WriteString(")")
 	reg := len(p.Inputs)
@@ -176,7 +191,13 @@ func (c *Circuit) Define(api frontend.API) error {
 	for i, k := range p.Inputs {
 		switch k {
 		case Const:
-			regs = append(regs, new(big.Int).Set(c.consts[i]))
+			if i < len(c.consts) && c.consts[i] != nil {
+				regs = append(regs, new(big.Int).Set(c.consts[i]))
+			} else if i < len(p.Lits) && p.Lits[i] != nil {
+				regs = append(regs, new(big.Int).Set(p.Lits[i]))
+			} else {
+				return fmt.Errorf("constant input %d has no value", i)
+			}
 		case Pub:
 			regs = append(regs, c.Pub[ip])
 			ip++
